@@ -94,6 +94,7 @@ fn main() {
             monitors::c04::child_main(&args[2..]);
         }
         "debug-reflect" => monitors::c13::debug_reflect(),
+        "debug-dop853" => monitors::c01::debug_dop853(),
         "debug-dae" => monitors::c15::debug_dae(),
         "debug-net" => monitors::c14::debug_net(args[2].parse().unwrap(), args[3].parse().unwrap()),
         "c20-expected" => {
